@@ -64,7 +64,8 @@ Qed.
     C08 repair): a feasible run ends with job 3 waiting forever — nothing queued, nothing running,
     nothing held. *)
 Definition c09_variant : variant :=
-  {| release_if_holds := true; recheck_on_skip := false; ctx_strict := false; pending_owner_safe := false |}.
+  {| release_if_holds := true; recheck_on_skip := false; ctx_strict := false; pending_owner_safe := false;
+     ctx_exact := false |}.
 Definition c09_cfg (v : variant) : config := {| limit_of := fun _ => 1%Z; dryrun := false; vr := v |}.
 Definition c09_witness : list op :=
   [ ONew 0 0 [(0, 1%Z)] false true false; ONew 1 0 [(0, 1%Z)] false true false;
